@@ -1369,6 +1369,7 @@ CHMaterialProp::~CHMaterialProp()
 }
 
 CHMaterialProp::CHMaterialProp( const CHMaterialProp & other)
+    : CMaterialProp(other)
 {
     Kx = other.Kx;
     Ky = other.Ky;
